@@ -576,6 +576,7 @@ func buildIntrinsics() map[string]intrinsic {
 	}
 	addBigIntrinsics(m)
 	addTomlIntrinsics(m)
+	addCLIIntrinsics(m)
 	addMoreIntrinsics(m)
 	return m
 }
